@@ -218,3 +218,19 @@ package breaker
 //@   property C01
 //@   results p, err
 //@   ensures thrAllows == old(thrAllows) + 1 && err == thrResult
+
+// Breaker / Promise as interfaces (what call sites rely on): a granted promise is resolved by Accept or Reject.
+//@ ghost var brkAllows int
+//@ ghost var brkPromise any
+//@ ghost var brkErr error
+//@ ghost var settled map[any]int
+//@ extern func (b Breaker) Allow
+//@   results p, err
+//@   ensures brkAllows == old(brkAllows) + 1 && p == brkPromise && err == brkErr && implies(err == nil, p != nil && settled[p] == 0)
+//@   modifies brkAllows, brkPromise, brkErr, settled[brkPromise]
+//@ extern func (p Promise) Accept
+//@   ensures settled[p] == old(settled[p]) + 1
+//@   modifies settled[p]
+//@ extern func (p Promise) Reject
+//@   ensures settled[p] == old(settled[p]) + 1
+//@   modifies settled[p]
